@@ -1,6 +1,8 @@
 package checks
 
 import (
+	"time"
+	"context"
 	"fmt"
 	"os"
 	"os/exec"
@@ -106,10 +108,19 @@ func c05RacePass(run *ev.Run, tier string) {
 	if tier == "thorough" {
 		iters = "400"
 	}
-	cmd := exec.Command(race, "worker", "c05race", iters)
+	// The pass takes seconds; one that has not finished after ten minutes has
+	// goroutines that wait for each other for ever (free-running, so real
+	// locks): reported, not waited for.
+	ctx, cancel := context.WithTimeout(context.Background(), 10*time.Minute)
+	defer cancel()
+	cmd := exec.CommandContext(ctx, race, "worker", "c05race", iters)
 	cmd.Env = append(os.Environ(), "GORACE=halt_on_error=0 exitcode=66")
 	out, err := cmd.CombinedOutput()
 	s := string(out)
+	if ctx.Err() != nil {
+		run.Report("free-running-pass-does-not-end", "the scenario bodies, run free on real goroutines and locks, had not finished after 10 minutes (they take seconds): some of them wait for each other for ever", map[string]any{"kind": "race-pass", "cmd": race + " worker c05race " + iters})
+		return
+	}
 	if strings.Contains(s, "WARNING: DATA RACE") {
 		i := strings.Index(s, "WARNING: DATA RACE")
 		rep := s[i:]
